@@ -6,6 +6,8 @@
 -/
 import Gen.C05
 import PabuModel.Phragmen
+import PabuProofs.Lemmas.Phragmen
+import PabuProofs.Lemmas.Greedy
 import Mathlib.Tactic.Ring
 import Mathlib.Tactic.NormNum
 import Mathlib.Algebra.Order.Field.Rat
@@ -26,6 +28,172 @@ theorem newMaxLoad (C : Phragmen.Ctx) (s : Phragmen.State) (p : Pid) :
   · simp [h]
   · have hq : ((Phragmen.score C p : Nat) : Rat) ≠ 0 := by exact_mod_cast h
     simp [h, hq]
+
+
+/-! ### the arg-min loop of a round as a whole (statement-level leaf) -/
+
+/-- the new maximum load of one element of the loop: `x` = (project, approval score, summed loads of its supporters, cost) -/
+def keyOf (x : Nat × Rat × Rat × Rat) : ERat := if x.2.1 = 0 then none else some ((x.2.2.1 + x.2.2.2) / x.2.1)
+
+theorem ltE_eq (a b : ERat) : Gen.C05.ltE a b = !(ERat.le b a) := by
+  cases a with
+  | none => cases b <;> simp [Gen.C05.ltE, ERat.le]
+  | some a =>
+    cases b with
+    | none => simp [Gen.C05.ltE, ERat.le]
+    | some b =>
+      simp only [Gen.C05.ltE, ERat.le]
+      by_cases h : a < b
+      · simp [h, not_le.mpr h]
+      · simp [h, not_lt.mp h]
+
+/-- one iteration, in terms of the element's new maximum load -/
+theorem argminLoop_cons (best : Option ERat) (arg : List Nat) (x : Nat × Rat × Rat × Rat) (xs : List (Nat × Rat × Rat × Rat)) :
+    Gen.C05.argminLoop best arg (x :: xs) =
+      if (best.isNone || Gen.C05.ltOptE (keyOf x) best) = true then Gen.C05.argminLoop (some (keyOf x)) [x.1] xs
+      else if Gen.C05.eqOptE (keyOf x) best = true then Gen.C05.argminLoop best (arg ++ [x.1]) xs
+      else Gen.C05.argminLoop best arg xs := by
+  rw [Gen.C05.argminLoop]
+  unfold keyOf
+  by_cases h : x.2.1 = 0
+  · simp only [h, decide_true, if_true]
+  · simp only [h, decide_false, if_false, Bool.false_eq_true]
+
+theorem emin_unique {l : List ERat} {m : ERat} (hm : m ∈ l) (hle : ∀ a ∈ l, ERat.le m a = true) : Phragmen.emin l = m := by
+  have hne : l ≠ [] := by intro h; rw [h] at hm; cases hm
+  exact Greedy.ERat_le_antisymm (Phragmen.emin_le l m hm) (hle _ (Phragmen.emin_mem l hne))
+
+/-- what the loop is to compute on the elements `xs`: nothing, or the least new maximum load and the projects attaining it, in order -/
+def argminSpec (xs : List (Nat × Rat × Rat × Rat)) : Option ERat × List Nat :=
+  (if xs = [] then none else some (Phragmen.emin (xs.map keyOf)), (xs.filter (fun x => keyOf x == Phragmen.emin (xs.map keyOf))).map (·.1))
+
+private theorem inv_step (pre : List (Nat × Rat × Rat × Rat)) (hpre : pre ≠ []) (x : Nat × Rat × Rat × Rat) :
+    let m := Phragmen.emin (pre.map keyOf)
+    let m' := Phragmen.emin ((pre ++ [x]).map keyOf)
+    (Gen.C05.ltE (keyOf x) m = true → m' = keyOf x ∧ ((pre ++ [x]).filter (fun y => keyOf y == m')).map (·.1) = [x.1]) ∧
+    (Gen.C05.ltE (keyOf x) m = false → keyOf x = m → m' = m ∧
+        ((pre ++ [x]).filter (fun y => keyOf y == m')).map (·.1) = (pre.filter (fun y => keyOf y == m)).map (·.1) ++ [x.1]) ∧
+    (Gen.C05.ltE (keyOf x) m = false → keyOf x ≠ m → m' = m ∧
+        ((pre ++ [x]).filter (fun y => keyOf y == m')).map (·.1) = (pre.filter (fun y => keyOf y == m)).map (·.1)) := by
+  intro m m'
+  have hne : pre.map keyOf ≠ [] := by simpa using hpre
+  have hmem : m ∈ pre.map keyOf := Phragmen.emin_mem _ hne
+  have hle : ∀ a ∈ pre.map keyOf, ERat.le m a = true := Phragmen.emin_le _
+  have hmap : (pre ++ [x]).map keyOf = pre.map keyOf ++ [keyOf x] := by simp
+  refine ⟨?_, ?_, ?_⟩
+  · intro hlt
+    rw [ltE_eq] at hlt
+    have hxm : ERat.le m (keyOf x) = false := by simpa using hlt
+    have hxle : ERat.le (keyOf x) m = true := by
+      rcases Greedy.ERat_le_total (keyOf x) m with h | h
+      · exact h
+      · rw [h] at hxm; cases hxm
+    have hm' : m' = keyOf x := by
+      apply emin_unique
+      · rw [hmap]; simp
+      · intro a ha
+        rw [hmap] at ha
+        rcases List.mem_append.mp ha with ha | ha
+        · exact Greedy.ERat_le_trans hxle (hle a ha)
+        · rw [List.mem_singleton.mp ha]; exact Greedy.ERat_le_refl _
+    refine ⟨hm', ?_⟩
+    rw [hm', List.filter_append]
+    have hnone : pre.filter (fun y => keyOf y == keyOf x) = [] := by
+      rw [List.filter_eq_nil_iff]
+      intro y hy hy'
+      have heq : keyOf y = keyOf x := by simpa using hy'
+      have := hle (keyOf y) (List.mem_map_of_mem hy)
+      rw [heq, hxm] at this
+      cases this
+    rw [hnone]
+    simp
+  · intro hlt heq
+    have hm' : m' = m := by
+      apply emin_unique
+      · rw [hmap]; exact List.mem_append_left _ hmem
+      · intro a ha
+        rw [hmap] at ha
+        rcases List.mem_append.mp ha with ha | ha
+        · exact hle a ha
+        · rw [List.mem_singleton.mp ha, heq]; exact Greedy.ERat_le_refl _
+    refine ⟨hm', ?_⟩
+    rw [hm', List.filter_append]
+    simp [heq]
+  · intro hlt hne'
+    rw [ltE_eq] at hlt
+    have hmx : ERat.le m (keyOf x) = true := by simpa using hlt
+    have hm' : m' = m := by
+      apply emin_unique
+      · rw [hmap]; exact List.mem_append_left _ hmem
+      · intro a ha
+        rw [hmap] at ha
+        rcases List.mem_append.mp ha with ha | ha
+        · exact hle a ha
+        · rw [List.mem_singleton.mp ha]; exact hmx
+    refine ⟨hm', ?_⟩
+    rw [hm', List.filter_append]
+    simp [hne']
+
+private theorem inv : ∀ (ys pre : List (Nat × Rat × Rat × Rat)), pre ≠ [] →
+    Gen.C05.argminLoop (some (Phragmen.emin (pre.map keyOf))) ((pre.filter (fun y => keyOf y == Phragmen.emin (pre.map keyOf))).map (·.1)) ys =
+      argminSpec (pre ++ ys)
+  | [], pre, hpre => by simp [Gen.C05.argminLoop, argminSpec, hpre]
+  | x :: ys, pre, hpre => by
+    have hs := inv_step pre hpre x
+    simp only at hs
+    obtain ⟨h1, h2, h3⟩ := hs
+    have hne : pre ++ [x] ≠ [] := by simp
+    have ih := inv ys (pre ++ [x]) hne
+    rw [List.append_assoc] at ih
+    simp only [List.singleton_append] at ih
+    rw [argminLoop_cons]
+    simp only [Option.isNone_some, Bool.false_or, Gen.C05.ltOptE, Gen.C05.eqOptE]
+    by_cases hlt : Gen.C05.ltE (keyOf x) (Phragmen.emin (pre.map keyOf)) = true
+    · obtain ⟨hm, hf⟩ := h1 hlt
+      simp only [hlt, if_true]
+      rw [← ih, hf, hm]
+    · have hlt' : Gen.C05.ltE (keyOf x) (Phragmen.emin (pre.map keyOf)) = false := by simpa using hlt
+      simp only [hlt', if_false, Bool.false_eq_true]
+      by_cases heq : keyOf x = Phragmen.emin (pre.map keyOf)
+      · obtain ⟨hm, hf⟩ := h2 hlt' heq
+        have hb : (keyOf x == Phragmen.emin (pre.map keyOf)) = true := by simp [heq]
+        simp only [hb, if_true]
+        rw [← ih, hf, hm]
+      · obtain ⟨hm, hf⟩ := h3 hlt' heq
+        have hb : (keyOf x == Phragmen.emin (pre.map keyOf)) = false := by simpa using heq
+        simp only [hb, if_false, Bool.false_eq_true]
+        rw [← ih, hf, hm]
+
+/-- the WHOLE arg-min loop of a Phragmen round (statement-level leaf `Gen.C05.argminLoop`, regenerated from `for project in projects: …`),
+    started as the code starts it (`None`, `None`): the least new maximum load over the elements and the projects attaining it, in order -/
+theorem argminLoop_spec (xs : List (Nat × Rat × Rat × Rat)) : Gen.C05.argminLoop none [] xs = argminSpec xs := by
+  cases xs with
+  | nil => simp [Gen.C05.argminLoop, argminSpec]
+  | cons x ys =>
+    rw [argminLoop_cons]
+    simp only [Option.isNone_none, Bool.true_or, if_true]
+    have h := inv ys [x] (by simp)
+    have hk : Phragmen.emin ([x].map keyOf) = keyOf x := by simp [Phragmen.emin]
+    rw [hk] at h
+    simpa using h
+
+/-- … and on the pool of a round with the model's quantities (approval score, multiplicity-weighted loads of the supporters, cost) that
+    is the model's `argmin`: the projects whose new maximum load is the least one -/
+theorem argminLoop_model (C : Phragmen.Ctx) (s : Phragmen.State) :
+    (Gen.C05.argminLoop none [] (s.pool.map (fun p => (p, ((Phragmen.score C p : Nat) : Rat),
+        sumOver (Phragmen.supporters C p) (fun i => (C.m i : Rat) * s.load i), C.cost p)))).2 = Phragmen.argmin C s := by
+  rw [argminLoop_spec]
+  unfold argminSpec Phragmen.argmin
+  have hk : ∀ p, keyOf (p, ((Phragmen.score C p : Nat) : Rat), sumOver (Phragmen.supporters C p) (fun i => (C.m i : Rat) * s.load i), C.cost p)
+      = Phragmen.newMax C s p := by
+    intro p
+    unfold keyOf Phragmen.newMax
+    by_cases h : Phragmen.score C p = 0
+    · simp [h]
+    · have hq : ((Phragmen.score C p : Nat) : Rat) ≠ 0 := by exact_mod_cast h
+      simp [h, hq]
+  simp only [List.map_map, Function.comp_def, hk, List.filter_map]
+  simp [List.map_map, Function.comp_def, hk]
 
 /-- `unsupported` alone: the model's guard `score C p = 0` -/
 theorem unsupported (C : Phragmen.Ctx) (p : Pid) :
